@@ -255,8 +255,128 @@ def gen_mail() -> str:
         except Exception as exc:  # noqa: BLE001
             date_probe.append((hdr, "RAISED " + type(exc).__name__))
 
+    # --- the reader loops: control skeleton of every loop of read_mbox_format_mail / read_eml_format_mail and the
+    #     data flow from the split list to the yielded value (every value ever bound to a name on that chain)
+    _EXITS = (ast.Yield, ast.YieldFrom, ast.Continue, ast.Break, ast.Return)
+
+    def _loop_tokens(loop):
+        toks = []
+        for st in loop.body:
+            if isinstance(st, ast.Expr) and isinstance(st.value, ast.Yield):
+                toks.append("yield")
+            elif any(isinstance(n, _EXITS) for n in ast.walk(st)):
+                toks.append("cond")        # a yield / continue / break / return under a condition or in a nested block
+            else:
+                toks.append("plain")
+        if loop.orelse:
+            toks.append("cond")
+        return toks
+
+    def _reader_facts(fn):
+        loops, comps, yields_outside = [], 0, 0
+        for stmt in _strip_doc(fn):
+            for n in ast.walk(stmt):
+                if isinstance(n, (ast.For, ast.While, ast.AsyncFor)):
+                    loops.append(n)
+                if isinstance(n, (ast.ListComp, ast.GeneratorExp, ast.SetComp, ast.DictComp)):
+                    comps += 1
+        inside = {id(n) for lp in loops for n in ast.walk(lp)}
+        for stmt in _strip_doc(fn):
+            for n in ast.walk(stmt):
+                if isinstance(n, (ast.Yield, ast.YieldFrom)) and id(n) not in inside:
+                    yields_outside += 1
+        chain = []
+        if len(loops) == 1 and isinstance(loops[0], ast.For):
+            lp = loops[0]
+            chain.append(("for-target", ast.unparse(lp.target)))
+            chain.append(("for-iter", ast.unparse(lp.iter)))
+            ys = [n for n in ast.walk(lp) if isinstance(n, (ast.Yield, ast.YieldFrom))]
+            names = set()
+            for y in ys:
+                chain.append(("yield", ast.unparse(y.value) if y.value is not None else ""))
+                names |= {n.id for n in ast.walk(y) if isinstance(n, ast.Name)}
+            names |= {n.id for n in ast.walk(lp.iter) if isinstance(n, ast.Name)}
+            # close the set of names over the right-hand sides bound to them (local data flow)
+            binds = []
+            for stmt in _strip_doc(fn):
+                for a in ast.walk(stmt):
+                    if isinstance(a, ast.Assign):
+                        for t in a.targets:
+                            for nm in ast.walk(t):
+                                if isinstance(nm, ast.Name):
+                                    binds.append((a.lineno, nm.id, ast.unparse(a.value), a.value))
+                    elif isinstance(a, (ast.AugAssign, ast.AnnAssign)) and isinstance(a.target, ast.Name):
+                        binds.append((a.lineno, a.target.id, "<" + type(a).__name__ + "> " + ast.unparse(a), a))
+                    elif isinstance(a, ast.NamedExpr):
+                        binds.append((a.lineno, a.target.id, "<walrus> " + ast.unparse(a.value), a.value))
+            changed = True
+            while changed:
+                changed = False
+                for _, nm, _, val in binds:
+                    if nm in names:
+                        more = {n.id for n in ast.walk(val) if isinstance(n, ast.Name)} - names
+                        if more:
+                            names |= more
+                            changed = True
+            skip = {"path", "logger", "message_count", "email", "file_like"}
+            for ln, nm, txt, _ in sorted(binds, key=lambda b: (b[0], b[1])):
+                if nm in names and nm not in skip:
+                    chain.append((nm, txt))
+            # calls made ON a chain name as a statement (x.sort(), x.pop(), del x[...]) change it without a binding
+            for stmt in _strip_doc(fn):
+                for a in ast.walk(stmt):
+                    if isinstance(a, ast.Expr) and isinstance(a.value, ast.Call) and isinstance(a.value.func, ast.Attribute) \
+                            and isinstance(a.value.func.value, ast.Name) and a.value.func.value.id in names - skip \
+                            and a.value.func.attr not in ("seek",):
+                        chain.append(("<call>", ast.unparse(a.value)))
+                    if isinstance(a, ast.Delete):
+                        chain.append(("<del>", ast.unparse(a)))
+        return [_loop_tokens(lp) for lp in loops], comps, yields_outside, chain
+
+    rd = _func(m_ast, "read_mbox_format_mail")
+    mbox_loops, mbox_comps, mbox_youts, mbox_chain = _reader_facts(rd) if rd is not None else ([], 0, 0, [("MISSING", "")])
+    erd = _func(e_ast, "read_eml_format_mail")
+    eml_loops, eml_comps, eml_youts, eml_chain = _reader_facts(erd) if erd is not None else ([], 0, 0, [("MISSING", "")])
+    eml_yields = [ast.unparse(n.value) if n.value is not None else "" for st in _strip_doc(erd) for n in ast.walk(st)
+                  if isinstance(n, (ast.Yield, ast.YieldFrom))] if erd is not None else ["MISSING"]
+    # module-level mutable state of the two extractors (a result must not depend on earlier calls): names bound at module
+    # level to a list / dict / set display or constructor call, and `global` statements anywhere
+    mod_state = []
+    for tag, tree in (("mbox", m_ast), ("eml", e_ast)):
+        for n in tree.body:
+            if isinstance(n, (ast.Assign, ast.AnnAssign)) and n.value is not None:
+                v = n.value
+                mut = isinstance(v, (ast.List, ast.Dict, ast.Set, ast.ListComp, ast.DictComp, ast.SetComp)) or (
+                    isinstance(v, ast.Call) and isinstance(v.func, ast.Name) and v.func.id in ("list", "dict", "set", "defaultdict", "OrderedDict", "Counter", "deque"))
+                if mut:
+                    tg = n.targets if isinstance(n, ast.Assign) else [n.target]
+                    mod_state.append((tag, ", ".join(ast.unparse(t) for t in tg)))
+        for n in ast.walk(tree):
+            if isinstance(n, (ast.Global, ast.Nonlocal)):
+                mod_state.append((tag, type(n).__name__.lower() + " " + ", ".join(n.names)))
+            if isinstance(n, ast.FunctionDef) and any(
+                    isinstance(d, ast.Call) and "cache" in ast.unparse(d.func) or (not isinstance(d, ast.Call) and "cache" in ast.unparse(d))
+                    for d in n.decorator_list):
+                mod_state.append((tag, "cached " + n.name))
+
     L = [HEADER.format(src=f"{MBOX}, {EML}, {DT}")]
     L.append("namespace S2T.Gen.Mail\n")
+    L.append("/-- control skeleton of every loop of `read_mbox_format_mail`, one token per statement of the loop body:\n"
+             "    `yield` = an unconditional top-level `yield`, `cond` = a statement that contains a yield / continue / break /\n"
+             "    return (under a condition, in a nested block) or a loop `else`, `plain` = anything else -/")
+    L.append("def readerLoops : List (List String) := " + lean_list("[" + ", ".join(lean_str(t) for t in lp) + "]" for lp in mbox_loops) + "\n")
+    L.append("/-- comprehensions in `read_mbox_format_mail` and yields outside its loop -/")
+    L.append(f"def readerComprehensions : Nat := {mbox_comps}")
+    L.append(f"def readerYieldsOutsideLoop : Nat := {mbox_youts}\n")
+    L.append("/-- data flow of the reader: loop target, iterated expression, yielded expression, then every value ever bound to a\n"
+             "    name these depend on (source order), and every in-place call / del on such a name -/")
+    L.append("def readerChain : List (String × String) := " + lean_list(f"({lean_str(a)}, {lean_str(b)})" for a, b in mbox_chain) + "\n")
+    L.append("/-- `read_eml_format_mail`: its loops (none), comprehensions and yield expressions -/")
+    L.append("def emlReaderLoops : List (List String) := " + lean_list("[" + ", ".join(lean_str(t) for t in lp) + "]" for lp in eml_loops) + "\n")
+    L.append(f"def emlReaderComprehensions : Nat := {eml_comps}")
+    L.append("def emlReaderYields : List String := " + lean_list(lean_str(x) for x in eml_yields) + "\n")
+    L.append("/-- module-level mutable containers, global/nonlocal statements and cached functions of the two extractors -/")
+    L.append("def moduleState : List (String × String) := " + lean_list(f"({lean_str(a)}, {lean_str(b)})" for a, b in mod_state) + "\n")
     L.append("/-- `MBOX_FROM_PATTERN.pattern` (bytes, shown as latin-1) and `.flags` -/")
     L.append(f"def sepPattern : String := {lean_str(pattern)}")
     L.append(f"def sepFlags : Nat := {flags}\n")
